@@ -172,6 +172,18 @@ def visitFields (exro : Bool) (s : RS) : List (Str × V) → Bool
      | none => s.addl != some false) && visitFields exro s r
 end
 
+mutual
+/-- the schema with every `writeOnly` flag cleared (used to state that write-only plays no role in requests) -/
+def RS.clearWO : RS → RS
+  | .mk t n r _ ml mx props req a items => .mk t n r false ml mx (clearWOProps props) req a (clearWOOpt items)
+def clearWOProps : List (Str × RS) → List (Str × RS)
+  | [] => []
+  | (k, p) :: r => (k, p.clearWO) :: clearWOProps r
+def clearWOOpt : Option RS → Option RS
+  | none => none
+  | some s => some s.clearWO
+end
+
 /-! ### Request-side satisfaction (spec; written from the property text) -/
 
 mutual
